@@ -24,6 +24,11 @@ impl StarkProof {
             n_interaction_columns.into(),
         )?;
 
+        // The composition polynomial is committed as CONSTRAINT_DEGREE columns.
+        if self.config.composition.n_columns != Felt::from(Layout::CONSTRAINT_DEGREE) {
+            return Err(Error::CompositionColumnsInvalid);
+        }
+
         // Validate the public input.
         let stark_domains =
             StarkDomains::new(self.config.log_trace_domain_size, self.config.log_n_cosets);
@@ -86,6 +91,9 @@ pub enum Error {
 
     #[error("Column missing")]
     ColumnMissing,
+
+    #[error("wrong number of composition columns")]
+    CompositionColumnsInvalid,
 }
 
 #[cfg(not(feature = "std"))]
@@ -108,4 +116,7 @@ pub enum Error {
 
     #[error("Column missing")]
     ColumnMissing,
+
+    #[error("wrong number of composition columns")]
+    CompositionColumnsInvalid,
 }
